@@ -294,6 +294,12 @@ def run(rep, db, tier, seed):
         c08_persist.run(rep, db, tier)
     except Exception as u:
         rep.add(Obligation('persist task: blocks handed to storage in order, without gaps or repeats', 'inconclusive', f'{type(u).__name__}: {u}'[:600]))
+    # a block supplied by a peer must carry the requested number and pass queue verification before the request completes
+    try:
+        from props import c19_runner
+        c19_runner.run(rep, db, tier)
+    except Exception as u:
+        rep.add(Obligation('per-request fetch task', 'inconclusive', f'{type(u).__name__}: {u}'[:600]))
     from props import kani_part
     kani_part.run(rep, PROP, tier)
     rep.extra['explanation'] = 'one operation from an arbitrary invariant-satisfying store: Kani on the real file for small caches, MIR execution at the real capacity boundary and for the verification-before-queueing order of queue_block'
